@@ -230,6 +230,15 @@ M = [
     ('source-suffix-lowercased', 'C10', 'pysmi/searcher/pyfile.py', "        for pySfx in SOURCE_SUFFIXES:\n", "        for pySfx in SOURCE_SUFFIXES:\n            pySfx = pySfx.lower()\n"),
     ('json-environment-keeps-trailing-newline', 'C04', J, "trim_blocks=True, lstrip_blocks=True)", "trim_blocks=True, lstrip_blocks=True,\n                                 keep_trailing_newline=True)"),
     ('mibcopy-revision-only-valueerror', 'C20', 'scripts/mibcopy.py', "            except Exception:\n                revision = datetime.fromtimestamp(0)", "            except (ValueError, OverflowError):\n                revision = datetime.fromtimestamp(0)"),
+    ('mibcopy-absent-destination-epoch', 'C20', 'scripts/mibcopy.py', "dstMibRevision = datetime.min", "dstMibRevision = datetime.fromtimestamp(0)"),
+    ('defval-oid-lookup-error-swallowed', 'C07', I, "                except Exception:\n                    # or no module if it will be borrowed later\n                    raise error.PySmiSemanticError(\n                        'no symbol \"%s\" in module \"%s\"' % (defval, module))", "                except Exception:\n                    # or no module if it will be borrowed later\n                    pass"),
+    ('meta-module-only-with-comments', 'C04', I, "        outDict['meta']['module'] = self.moduleName[0]\n\n        if 'comments' in kwargs:\n            outDict['meta']['comments'] = kwargs['comments']", "        if 'comments' in kwargs:\n            outDict['meta']['module'] = self.moduleName[0]\n            outDict['meta']['comments'] = kwargs['comments']"),
+    ('hex-string-nested-repeat', 'C11', L, "        r'\\'[0-9a-fA-F]*\\'[hH]'", "        r'\\'(?:[0-9a-fA-F]+ ?)*\\'[hH]'"),
+    # ---- round 7
+    ('iso-after-module-check', 'C01', I, "                if parent == 'iso':\n                    numericOid += (1,)\n                    continue\n\n                if module not in self.symbolTable:\n                    # XXX do getname for possible future borrowed mibs\n                    raise error.PySmiSemanticError('no module \"%s\" in symbolTable' % module)\n", "                if module not in self.symbolTable:\n                    # XXX do getname for possible future borrowed mibs\n                    raise error.PySmiSemanticError('no module \"%s\" in symbolTable' % module)\n\n                if parent == 'iso':\n                    numericOid += (1,)\n                    continue\n"),
+    ('index-skips-modules-without-enterprise', 'C18', J, "            modData = outDict['enterprise']\n            enterprise_oid = getattr(status, 'enterprise', None)\n            if enterprise_oid:\n", "            modData = outDict['enterprise']\n            enterprise_oid = getattr(status, 'enterprise', None)\n            if not enterprise_oid:\n                continue\n            if enterprise_oid:\n"),
+    ('mibcopy-walk-top-directory', 'C20', 'scripts/mibcopy.py', "        mibFiles = [(os.path.abspath(dirName), mibFile)\n", "        mibFiles = [(os.path.abspath(srcDirectory), mibFile)\n"),
+    ('compliance-module-unguarded-subscript', 'C11', P, "        objects = p[3] and p[3][1] or []\n", "        objects = p[3][1]\n"),
 ]
 
 
